@@ -568,6 +568,9 @@ def sched_exploration(run, harness, label, args, tags, lin=True):
             m = re.search(r"(\d+) scheduled steps", l)
             if m:
                 steps = int(m.group(1))
+            m = re.search(r"exhaustive-one-preemption schedules: (\d+)", l)
+            if m:
+                run.cov["exhaustive_one_preemption_schedules"] = run.cov.get("exhaustive_one_preemption_schedules", 0) + int(m.group(1))
             continue
         hid, msg = l.split(" ", 1)
         mons.setdefault(hid, []).append(msg)
